@@ -28,40 +28,60 @@ PY = "/venv/bin/python"
 # ------------------------------------------------------------------------------------------------
 
 class ProgGen:
-    """Generates a small multi-file Python project.  Every plain function takes one int and returns an
-    int, so any plain function can be passed where a callback is expected; recursion is guarded by a
-    decreasing argument; decisions are read from sys.argv[1] (opaque to lian)."""
+    """Generates a small multi-file Python project.
+
+    Every *plain* function can be called with one int and returns an int (extra parameters are optional),
+    so any plain function can be passed where a callback is expected; recursion is guarded by a
+    decreasing argument; decisions are read from sys.argv[1] (opaque to lian).
+
+    Generic dimensions (chosen independently for every declaration / call):
+    * signatures: extra defaulted parameters, keyword-only parameters, *args, **kwargs, callback
+      parameters with a function as default;
+    * argument passing at EVERY call the generator emits: positional, keyword in random order, mixed,
+      defaults left unfilled, *(...) and **{...} unpacking;
+    * identifier shapes: plain, leading underscore, dunder-like, names of builtins, very long names,
+      names that differ only in case;
+    * imports of every symbol kind from the helper module (function, class, module variable holding a
+      function, module variable holding an instance) with / without alias, `import m` attribute access;
+    * overriding methods (1-2 levels) whose callback parameter matters, called through receivers with
+      one or several candidate classes, with random amounts of code between the declarations."""
+
+    BUILTINS = ["max", "min", "sum", "len", "id", "type", "hash", "abs", "iter", "next", "vars", "dir", "format",
+                "filter", "map", "input", "open", "sorted", "any", "all", "repr", "round", "divmod", "bin"]
+    CB_NAMES = ["cb", "handler", "callback", "fn", "on_done", "visitor", "action"]
+    INT_NAMES = ["x", "item", "job", "v", "value", "arg"]
+    EXTRA_NAMES = ["retries", "tag", "mode", "depth", "base", "zeta", "alpha", "limit"]
 
     def __init__(self, rng, size=1.0, weights=None):
         self.r = rng
         self.size = size
-        self.w = dict(k1=0.10, k3=0.12, k4=0.10, deco=0.0, ep=0.15, second_entry=0.12)
+        self.w = dict(k1=0.10, k3=0.12, k4=0.10, ep=0.15, second_entry=0.12, d1=0.10, d2=0.03, d3=0.03, d4=0.25)
         if weights:
             self.w.update(weights)
         self.ndec = 0
         self.uid = 0
+        self.used_names = set()
         self.main = []          # lines of m.py after the import block
         self.imports = []       # import lines of m.py
         self.helper = []        # lines of u1.py
-        self.second = []        # lines of u2.py (a second file with top-level code), optional
-        self.plain = []         # names of plain functions callable from m.py (expression text)
+        self.plain = []         # plain callables visible in m.py: dict(expr, p, extra, va, kw)
         self.plain_k1 = []      # module-attribute spellings (known miss K1)
-        self.hofs = []          # names of higher-order functions hof(cb, x)
+        self.plain_d4 = []      # imported module variables holding a function (known miss)
+        self.hofs = []          # higher-order functions: dict(name, params, cbp, xp, style)
         self.makers = []        # (expr, needs_arg) returning a plain function
-        self.classes = []       # dict(name, methods=[...], ctor_kind, inherited=[...])
+        self.classes = []       # dict(name, methods, inherited, ctor, visit, ...)
         self.recs = []          # recursive plain functions (called with small literals)
         self.kinds = []         # what was generated (coverage)
 
     # -- helpers
-    def fresh(self, p):
-        self.uid += 1
-        return f"{p}{self.uid}"
-
     def pick(self, xs):
         return xs[self.r.randrange(len(xs))]
 
     def chance(self, p):
         return self.r.random() < p
+
+    def note(self, k):
+        self.kinds.append(k)
 
     def new_dec(self):
         if self.ndec >= 3:
@@ -69,64 +89,306 @@ class ProgGen:
         self.ndec += 1
         return self.ndec - 1
 
-    def note(self, k):
-        self.kinds.append(k)
+    def _claim(self, nm):
+        if nm in self.used_names or nm in ("D", "t", "sys", "u1", "self", "range", "ep_main", "w2", "s"):
+            return False
+        self.used_names.add(nm)
+        return True
+
+    def fresh(self, p):
+        """variable / class / method name (never a builtin name)"""
+        while True:
+            self.uid += 1
+            base = f"{p}{self.uid}"
+            r = self.r.random()
+            if r < 0.78:
+                nm = base
+            elif r < 0.88:
+                nm = "_" + base; self.note("id-underscore")
+            elif r < 0.91:
+                nm = "__" + base + "__"; self.note("id-dunder")
+            elif r < 0.94:
+                nm = base + "_" + "long" * 13; self.note("id-long")
+            else:
+                nm = base[0].upper() + base[1:] + "Xy"; self.note("id-camel")
+            if self._claim(nm):
+                return nm
+
+    def fresh_fn(self, p):
+        """function name: additionally names of builtins and names differing only in case from an earlier one"""
+        r = self.r.random()
+        if r < 0.07:
+            cands = [b for b in self.BUILTINS if b not in self.used_names]
+            if cands:
+                nm = self.pick(cands)
+                if self._claim(nm):
+                    self.note("id-builtin")
+                    return nm
+        if r < 0.14:
+            olds = [e["expr"] for e in self.plain if e["expr"].isidentifier() and e.get("own")]
+            self.r.shuffle(olds)
+            for o in olds:
+                for v in (o.upper(), o.swapcase(), o.capitalize()):
+                    if v != o and v.lower() == o.lower() and self._claim(v):
+                        self.note("id-case-twin")
+                        return v
+        return self.fresh(p)
+
+    # -- generic call rendering --------------------------------------------------------------------
+    def render(self, fexpr, params, vals, nostar=False):
+        """params: [(name, kind, has_default)], kind in pk (positional-or-keyword), ko (keyword-only),
+        va (*name; vals[name] = list of exprs), kw (**name; vals[name] = dict).  vals: name -> expr for the
+        parameters to pass (all required ones).  The passing mode is chosen at random among the feasible ones."""
+        r = self.r
+        pk = [n for n, k, _ in params if k == "pk" and n in vals]
+        # positional prefix must be contiguous from the first parameter
+        order = [n for n, k, _ in params if k == "pk"]
+        maxpos = 0
+        for n in order:
+            if n in vals:
+                maxpos += 1
+            else:
+                break
+        va = next((n for n, k, _ in params if k == "va"), None)
+        va_items = list(vals.get(va, [])) if va else []
+        kwn = next((n for n, k, _ in params if k == "kw"), None)
+        kw_items = dict(vals.get(kwn, {})) if kwn else {}
+        ko = [n for n, k, _ in params if k == "ko" and n in vals]
+        if va_items:
+            npos = len(order) if maxpos == len(order) else None
+            if npos is None:
+                va_items = []
+                npos = r.randint(0, maxpos)
+        else:
+            mode = self.pick(["pos", "kw", "mixed", "mixed", "star", "dstar"])
+            if mode == "pos":
+                npos = maxpos
+            elif mode in ("kw", "dstar"):
+                npos = 0
+            else:
+                npos = r.randint(0, maxpos)
+        pos = [vals[n] for n in order[:npos]] + va_items
+        kws = [(n, vals[n]) for n in pk if n not in order[:npos]] + [(n, vals[n]) for n in ko] + list(kw_items.items())
+        r.shuffle(kws)
+        style = "plain"
+        if nostar:
+            pass
+        elif pos and not kws and self.chance(0.15):
+            style = "star"
+        elif kws and not pos and self.chance(0.15):
+            style = "dstar"
+        elif pos and kws and self.chance(0.08):
+            style = "both"
+        if len(kws) >= 2:
+            self.note("args-keywords>=2" + ("-unsorted" if [k for k, _ in kws] != sorted(k for k, _ in kws) else "-sorted"))
+        elif len(kws) == 1:
+            self.note("args-keyword-1")
+        if pos and kws:
+            self.note("args-mixed")
+        if not kws:
+            self.note("args-positional")
+        parts = []
+        if pos:
+            if style in ("star", "both"):
+                seq = ", ".join(pos) + ("," if len(pos) == 1 else "")
+                parts.append("*(" + seq + ")" if self.chance(0.5) else "*[" + ", ".join(pos) + "]")
+                self.note("args-star-unpack")
+            else:
+                parts += pos
+        if kws:
+            if style in ("dstar", "both"):
+                parts.append("**{" + ", ".join(f'"{k}": {v}' for k, v in kws) + "}")
+                self.note("args-dstar-unpack")
+            else:
+                parts += [f"{k}={v}" for k, v in kws]
+        return f"{fexpr}(" + ", ".join(parts) + ")"
+
+    def opt(self, params, vals, extra_vals):
+        """add optional parameters (defaults) to vals with probability 1/2 each ("defaults left unfilled" otherwise)"""
+        for n, k, d in params:
+            if d and n in extra_vals:
+                if self.chance(0.5):
+                    vals[n] = extra_vals[n]
+                else:
+                    self.note("args-default-unfilled")
+        return vals
+
+    # -- plain callables
+    def plain_params(self, e):
+        ps = [(e["p"], "pk", False)] + [(n, "pk", True) for n, _ in e["extra"]]
+        if e.get("va"):
+            ps.append((e["va"], "va", False))
+        if e.get("kw"):
+            ps.append((e["kw"], "kw", False))
+        return ps
+
+    def call_plain(self, e, arg):
+        """a call of plain callable record e with int expression arg"""
+        if not e.get("sig"):
+            # imported under an alias / attribute etc.: same signature record is kept, see gen_helper
+            pass
+        params = self.plain_params(e)
+        vals = {e["p"]: arg}
+        self.opt(params, vals, {n: str(self.r.randint(1, 3)) for n, _ in e["extra"]})
+        if e.get("va") and self.chance(0.3):
+            if all(n in vals for n, k, _ in params if k == "pk"):
+                vals[e["va"]] = [str(self.r.randint(1, 3))]
+        if e.get("kw") and self.chance(0.3):
+            vals[e["kw"]] = {"zz": str(self.r.randint(1, 3))}
+        return self.render(e["expr"], params, vals)
+
+    def callee(self):
+        if self.plain_k1 and self.chance(0.2):
+            return self.pick(self.plain_k1)
+        if self.plain_d4 and self.chance(0.12):
+            return self.pick(self.plain_d4)
+        return self.pick(self.plain)
+
+    def fcall(self, arg):
+        return self.call_plain(self.callee(), arg)
+
+    def fval(self):
+        """a plain callable passed / stored as a value"""
+        return self.callee()["expr"]
+
+    def sig_text(self, e):
+        parts = [e["p"]] + [f"{n}={d}" for n, d in e["extra"]]
+        if e.get("va"):
+            parts.append("*" + e["va"])
+        if e.get("kw"):
+            parts.append("**" + e["kw"])
+        return ", ".join(parts)
+
+    def new_plain_record(self, name, p="x"):
+        e = dict(expr=name, p=p, extra=[], va=None, kw=None, own=True)
+        r = self.r.random()
+        if r < 0.25:
+            e["extra"] = [(self.fresh("y"), self.r.randint(0, 2))]
+            self.note("sig-default-param")
+        elif r < 0.32:
+            e["extra"] = [(self.fresh("y"), 1), (self.fresh("a"), 2)]
+            self.note("sig-2-default-params")
+        elif r < 0.40:
+            e["va"] = self.fresh("more"); self.note("sig-vararg")
+        elif r < 0.48:
+            e["kw"] = self.fresh("opts"); self.note("sig-kwarg")
+        return e
 
     # -- helper module u1.py
     def gen_helper(self):
         r = self.r
         n = r.randint(1, 3)
-        names = []
+        recs = []
         for i in range(n):
-            nm = self.fresh("uf")
-            if names and self.chance(0.6):
-                self.helper += [f"def {nm}(x):", f"    return {self.pick(names)}(x) + 1"]
+            nm = self.fresh_fn("uf")
+            e = self.new_plain_record(nm)
+            if recs and self.chance(0.6):
+                o = self.pick(recs)
+                self.helper += [f"def {nm}({self.sig_text(e)}):", f"    return {o['expr']}(x) + 1"]
             else:
-                self.helper += [f"def {nm}(x):", "    return x + 1"]
-            names.append(nm)
+                self.helper += [f"def {nm}({self.sig_text(e)}):", "    return x + 1"]
+            recs.append(e)
         cls = None
         if self.chance(0.6):
-            cls = self.fresh("UK")
+            cn = self.fresh("UK")
             mm = self.fresh("um")
-            self.helper += [f"class {cls}:", f"    def {mm}(self, x):", f"        return {self.pick(names)}(x)"]
-            cls = dict(name=cls, methods=[mm], ctor=None, module="u1")
+            self.helper += [f"class {cn}:", f"    def {mm}(self, x):", f"        return {self.pick(recs)['expr']}(x)"]
+            cls = dict(name=cn, methods=[dict(name=mm, extra=[])], ctor=None, module="u1", inherited=[])
         # import styles
-        for nm in names:
+        for e in recs:
+            nm = e["expr"]
             style = r.random()
             if style < self.w["k1"]:
                 if "import u1" not in self.imports:
                     self.imports.append("import u1")
-                self.plain_k1.append(f"u1.{nm}")
+                self.plain_k1.append(dict(e, expr=f"u1.{nm}", own=False))
                 self.note("import-module-attr")
             elif style < 0.55:
                 self.imports.append(f"from u1 import {nm}")
-                self.plain.append(nm)
+                self.plain.append(dict(e, own=False))
                 self.note("from-import")
             else:
                 al = self.fresh("al")
                 self.imports.append(f"from u1 import {nm} as {al}")
-                self.plain.append(al)
+                self.plain.append(dict(e, expr=al, own=False))
                 self.note("from-import-as")
+        if self.chance(self.w["d4"]):
+            # a module-level variable of the helper holding a function, imported by name
+            tn = self.fresh_fn("uh")
+            e = self.new_plain_record(tn)
+            self.helper += [f"def {tn}({self.sig_text(e)}):", "    return x + 2"]
+            hv = self.fresh("hv")
+            self.helper += [f"{hv} = {tn}"]
+            if self.chance(0.5):
+                self.imports.append(f"from u1 import {hv}")
+                self.plain_d4.append(dict(e, expr=hv, own=False))
+            else:
+                al = self.fresh("hva")
+                self.imports.append(f"from u1 import {hv} as {al}")
+                self.plain_d4.append(dict(e, expr=al, own=False))
+            self.note("import-variable-holding-function")
         if cls:
-            self.imports.append(f"from u1 import {cls['name']}")
+            if self.chance(0.7):
+                self.imports.append(f"from u1 import {cls['name']}")
+            else:
+                al = self.fresh("UKa")
+                self.imports.append(f"from u1 import {cls['name']} as {al}")
+                cls = dict(cls, name=al, real=cls["name"])
+                self.note("imported-class-as")
             self.classes.append(cls)
             self.note("imported-class")
 
-    # -- building blocks in m.py
-    def callee(self):
-        if self.plain_k1 and self.chance(0.25):
-            return self.pick(self.plain_k1)
-        return self.pick(self.plain)
+    # -- calls of the other kinds
+    def call_hof(self, h, cbexpr, arg):
+        params = h["params"]
+        vals = {h["xp"]: arg}
+        if h["style"] == "vararg":
+            vals[h["cbp"]] = [cbexpr]
+        elif h["style"] == "kwarg":
+            vals[h["cbp"]] = {h["key"]: cbexpr}
+        elif h["style"] == "default" and self.chance(0.4):
+            self.note("D1-default-callback-unfilled")
+        else:
+            vals[h["cbp"]] = cbexpr
+        self.opt(params, vals, {n: (str(self.r.randint(1, 3)) if n != "tag" else '"t"') for n, k, d in params if d and n not in (h["cbp"],)})
+        return self.render(h["name"], params, vals)
 
-    def gen_action(self, ind, var, in_method=None, depth=0):
-        """returns lines computing `t` from int variable `var`; callees drawn from the inventory."""
+    def call_method(self, obj, m, arg, cb=None):
+        head = [(m.get("xp", "x"), "pk", False)]
+        vals = {m.get("xp", "x"): arg}
+        if m.get("cbp"):
+            head = [(m["cbp"], "pk", False)] + head if m.get("cb_first", True) else head + [(m["cbp"], "pk", False)]
+            vals[m["cbp"]] = cb
+        params = head + [(n, "pk", True) for n, _ in m.get("extra", [])]
+        self.opt(params, vals, {n: str(self.r.randint(1, 3)) for n, _ in m.get("extra", [])})
+        return self.render(f"{obj}.{m['name']}", params, vals)
+
+    def call_ctor(self, c, arg, cb=None):
+        if c.get("ctor") is None:
+            return f"{c['name']}()"
+        params = [(c.get("cparam", "x"), "pk", False)] + [(n, "pk", True) for n, _ in c.get("cextra", [])]
+        vals = {c.get("cparam", "x"): cb if c.get("ctor") == "cb" else arg}
+        self.opt(params, vals, {n: str(self.r.randint(1, 3)) for n, _ in c.get("cextra", [])})
+        return self.render(c["name"], params, vals, nostar=bool(c.get("box")))
+
+    def plain_methods(self, c):
+        return [m for m in c["methods"] + c.get("inherited", []) if not m.get("cbp")]
+
+    def visit_methods(self, c):
+        return [m for m in c["methods"] + c.get("inherited", []) if m.get("cbp")]
+
+    def gen_action(self, ind, var, in_method=None):
+        """returns lines computing `t` from int expression `var`; callees drawn from the inventory."""
         r = self.r
         I = " " * ind
         choices = ["direct", "direct", "nested-arg"]
         if self.hofs:
             choices += ["callback", "callback", "lambda", "nested-def"]
-        if self.classes:
-            choices += ["ctor-method", "ctor-method", "obj-param", "bound-cb" if self.hofs else "ctor-method"]
+        normal = [c for c in self.classes if not c.get("box")]
+        if normal:
+            choices += ["ctor-method", "ctor-method", "obj-param"] + (["bound-cb"] if self.hofs else [])
+        if any(self.visit_methods(c) for c in normal):
+            choices += ["visit", "visit", "visit-candidates", "visit-candidates"]
         if self.makers:
             choices += ["returned", "returned"]
         choices += ["list", "dict", "for-list", "branch", "alias-branch", "loop", "while"]
@@ -138,76 +400,103 @@ class ProgGen:
             choices += ["field-out", "field-in" if self.chance(self.w["k3"] * 3) else "field-out"]
         k = self.pick(choices)
         self.note(k)
-        f = self.callee
         if k == "direct":
-            return [f"{I}t = {f()}({var})"]
+            return [f"{I}t = {self.fcall(var)}"]
         if k == "nested-arg":
-            return [f"{I}t = {f()}({f()}({var}))"]
+            return [f"{I}t = {self.fcall(self.fcall(var))}"]
         if k == "callback":
-            return [f"{I}t = {self.pick(self.hofs)}({f()}, {var})"]
+            return [f"{I}t = {self.call_hof(self.pick(self.hofs), self.fval(), var)}"]
         if k == "lambda":
-            return [f"{I}t = {self.pick(self.hofs)}(lambda v: {f()}(v), {var})"]
+            return [f"{I}t = {self.call_hof(self.pick(self.hofs), 'lambda v: ' + self.fcall('v'), var)}"]
         if k == "nested-def":
             nm = self.fresh("nf")
-            return [f"{I}def {nm}(v):", f"{I}    return {f()}(v)", f"{I}t = {self.pick(self.hofs)}({nm}, {var})"]
+            return [f"{I}def {nm}(v):", f"{I}    return {self.fcall('v')}", f"{I}t = {self.call_hof(self.pick(self.hofs), nm, var)}"]
         if k in ("ctor-method", "obj-param", "bound-cb"):
-            c = self.pick([c for c in self.classes if not c.get("box")] or self.classes)
-            if c.get("box"):
-                return [f"{I}t = {f()}({var})"]
+            c = self.pick(normal)
+            ms = self.plain_methods(c)
+            if not ms:
+                return [f"{I}t = {self.fcall(var)}"]
             o = self.fresh("o")
-            arg = var if c.get("ctor") == "int" else ""
-            m = self.pick(c["methods"] + c.get("inherited", []))
+            m = self.pick(ms)
+            mk = f"{I}{o} = {self.call_ctor(c, var)}"
             if k == "ctor-method":
-                return [f"{I}{o} = {c['name']}({arg})", f"{I}t = {o}.{m}({var})"]
+                return [mk, f"{I}t = {self.call_method(o, m, var)}"]
             if k == "bound-cb":
-                return [f"{I}{o} = {c['name']}({arg})", f"{I}t = {self.pick(self.hofs)}({o}.{m}, {var})"]
-            # obj-param: a function receiving the object
+                return [mk, f"{I}t = {self.call_hof(self.pick(self.hofs), o + '.' + m['name'], var)}"]
             un = self.fresh("use")
-            return [f"{I}def {un}(ob, v):", f"{I}    return ob.{m}(v)", f"{I}{o} = {c['name']}({arg})", f"{I}t = {un}({o}, {var})"]
+            return [f"{I}def {un}(ob, v):", f"{I}    return {self.call_method('ob', m, 'v')}", mk, f"{I}t = {un}({o}, {var})"]
+        if k == "visit":
+            c = self.pick([c for c in normal if self.visit_methods(c)])
+            m = self.pick(self.visit_methods(c))
+            o = self.fresh("o")
+            return [f"{I}{o} = {self.call_ctor(c, var)}", f"{I}t = {self.call_method(o, m, var, cb=self.fval())}"]
+        if k == "visit-candidates":
+            # receiver with several candidate classes that all have the method (overriding)
+            c = self.pick([c for c in normal if self.visit_methods(c)])
+            m = self.pick(self.visit_methods(c))
+            cands = [c2 for c2 in normal if any(m2["name"] == m["name"] for m2 in self.visit_methods(c2))]
+            c2 = self.pick(cands)
+            d = self.new_dec(); o = self.fresh("o")
+            return [f"{I}if D[{d}] == \"1\":", f"{I}    {o} = {self.call_ctor(c, var)}", f"{I}else:", f"{I}    {o} = {self.call_ctor(c2, var)}",
+                    f"{I}t = {self.call_method(o, m, var, cb=self.fval())}"]
         if k == "returned":
             mk, needs = self.pick(self.makers)
             q = self.fresh("q")
             if needs:
-                return [f"{I}{q} = {mk}({f()})", f"{I}t = {q}({var})"]
+                mode = self.pick(["pos", "kw"])
+                a = self.fval()
+                return [f"{I}{q} = {mk}({a})" if mode == "pos" else f"{I}{q} = {mk}(fn={a})", f"{I}t = {q}({var})"]
             if self.chance(0.3):
                 return [f"{I}t = {mk}()({var})"]
             return [f"{I}{q} = {mk}()", f"{I}t = {q}({var})"]
         if k == "list":
             fs = self.fresh("fs")
-            return [f"{I}{fs} = [{f()}, {f()}]", f"{I}t = {fs}[{r.randrange(2)}]({var})"]
+            return [f"{I}{fs} = [{self.fval()}, {self.fval()}]", f"{I}t = {fs}[{r.randrange(2)}]({var})"]
         if k == "dict":
             d = self.fresh("d")
-            return [f"{I}{d} = {{\"a\": {f()}, \"b\": {f()}}}", f"{I}t = {d}[\"{self.pick('ab')}\"]({var})"]
+            return [f"{I}{d} = {{\"a\": {self.fval()}, \"b\": {self.fval()}}}", f"{I}t = {d}[\"{self.pick('ab')}\"]({var})"]
         if k == "for-list":
             fs = self.fresh("fs"); q = self.fresh("q")
-            return [f"{I}{fs} = [{f()}, {f()}]", f"{I}t = 0", f"{I}for {q} in {fs}:", f"{I}    t = {q}({var})"]
+            return [f"{I}{fs} = [{self.fval()}, {self.fval()}]", f"{I}t = 0", f"{I}for {q} in {fs}:", f"{I}    t = {q}({var})"]
         if k == "branch":
             d = self.new_dec()
-            return [f"{I}if D[{d}] == \"1\":", f"{I}    t = {f()}({var})", f"{I}else:", f"{I}    t = {f()}({var})"]
+            return [f"{I}if D[{d}] == \"1\":", f"{I}    t = {self.fcall(var)}", f"{I}else:", f"{I}    t = {self.fcall(var)}"]
         if k == "alias-branch":
             d = self.new_dec(); q = self.fresh("q")
-            return [f"{I}if D[{d}] == \"1\":", f"{I}    {q} = {f()}", f"{I}else:", f"{I}    {q} = {f()}", f"{I}t = {q}({var})"]
+            return [f"{I}if D[{d}] == \"1\":", f"{I}    {q} = {self.fval()}", f"{I}else:", f"{I}    {q} = {self.fval()}", f"{I}t = {q}({var})"]
         if k == "loop":
             i = self.fresh("i")
-            return [f"{I}t = 0", f"{I}for {i} in range(2):", f"{I}    t = {f()}({i})"]
+            return [f"{I}t = 0", f"{I}for {i} in range(2):", f"{I}    t = {self.fcall(i)}"]
         if k == "while":
             i = self.fresh("i")
-            return [f"{I}t = 0", f"{I}{i} = 0", f"{I}while {i} < 2:", f"{I}    t = {f()}({i})", f"{I}    {i} = {i} + 1"]
+            return [f"{I}t = 0", f"{I}{i} = 0", f"{I}while {i} < 2:", f"{I}    t = {self.fcall(i)}", f"{I}    {i} = {i} + 1"]
         if k == "rec":
-            return [f"{I}t = {self.pick(self.recs)}({r.randint(1, 3)})"]
+            e = self.pick(self.recs)
+            return [f"{I}t = {self.call_plain(e, str(r.randint(1, 3)))}"]
         if k == "self-method":
-            return [f"{I}t = self.{self.pick(in_method['others'])}({var})"]
+            return [f"{I}t = {self.call_method('self', self.pick(in_method['others']), var)}"]
         if k in ("field-out", "field-in"):
             c = self.pick([c for c in self.classes if c.get("box")])
             o = self.fresh("bx")
+            mk = f"{I}{o} = {self.call_ctor(c, var, cb=self.fval())}"
             if k == "field-out":
-                return [f"{I}{o} = {c['name']}({f()})", f"{I}t = {o}.cb({var})"]
+                return [mk, f"{I}t = {o}.cb({var})"]
             self.note("K3-field-in-method")
-            return [f"{I}{o} = {c['name']}({f()})", f"{I}t = {o}.{c['run']}({var})"]
+            return [mk, f"{I}t = {self.call_method(o, c['run'], var)}"]
         raise AssertionError(k)
 
+    def pad(self):
+        """random amount of code between declarations (changes statement ids and their distance)"""
+        n = self.pick([0, 0, 0, 1, 2, 4, 8, 14])
+        for _ in range(n):
+            v = self.fresh("pad")
+            self.main.append(f"{v} = {self.r.randint(0, 9)}")
+        if n:
+            self.note("padding")
+
     def gen_plain(self):
-        nm = self.fresh("f")
+        nm = self.fresh_fn("f")
+        e = self.new_plain_record(nm)
         n = self.r.randint(1, 2 if self.size < 1.5 else 3)
         body = []
         var = "x"
@@ -215,103 +504,178 @@ class ProgGen:
             body += self.gen_action(4, var)
             if j + 1 < n and self.chance(0.5):
                 var = "t"
-        self.main += [f"def {nm}(x):"] + body + ["    return t + 1"]
-        self.plain.append(nm)
+        self.main += [f"def {nm}({self.sig_text(e)}):"] + body + ["    return t + 1"]
+        self.plain.append(e)
 
     def gen_leaf(self):
-        nm = self.fresh("g")
-        self.main += [f"def {nm}(x):", "    return x + 1"]
-        self.plain.append(nm)
+        nm = self.fresh_fn("g")
+        e = self.new_plain_record(nm)
+        self.main += [f"def {nm}({self.sig_text(e)}):", "    return x + 1"]
+        self.plain.append(e)
 
     def gen_hof(self):
-        nm = self.fresh("hof")
-        if self.hofs and self.chance(0.5):
+        nm = self.fresh_fn("hof")
+        cbp = self.pick(self.CB_NAMES)
+        xp = self.pick(self.INT_NAMES)
+        r = self.r.random()
+        extra = []
+        if self.chance(0.5):
+            extra = [(n, ('"t"' if n == "tag" else "1")) for n in self.r.sample(self.EXTRA_NAMES, self.r.randint(1, 2))]
+        if self.hofs and self.chance(0.35):
             inner = self.pick(self.hofs)
-            self.main += [f"def {nm}(cb, x):", f"    return {inner}(cb, x)"]
+            params = [(cbp, "pk", False), (xp, "pk", False)]
+            if self.chance(0.5):
+                params.reverse()
+            params += [(n, "pk", True) for n, _ in extra]
+            sig = ", ".join(n if not d else f"{n}={dict(extra)[n]}" for n, k, d in params)
+            self.main += [f"def {nm}({sig}):", f"    return {self.call_hof(inner, cbp, xp)}"]
             self.note("hof-2-levels")
+            self.hofs.append(dict(name=nm, params=params, cbp=cbp, xp=xp, style="plain"))
+            return
+        if r < self.w["d1"] and self.plain:
+            dflt = self.pick([e for e in self.plain if e["expr"].isidentifier()] or self.plain)["expr"]
+            params = [(xp, "pk", False), (cbp, "pk", True)] + [(n, "pk", True) for n, _ in extra]
+            sig = ", ".join([xp, f"{cbp}={dflt}"] + [f"{n}={d}" for n, d in extra])
+            body = [f"    t = {cbp}({xp})"]
+            style = "default"; self.note("hof-default-callback")
+        elif r < self.w["d1"] + self.w["d2"]:
+            params = [(xp, "pk", False), (cbp, "va", False)]
+            sig = f"{xp}, *{cbp}"
+            body = [f"    t = {cbp}[0]({xp})"]
+            style = "vararg"; self.note("D2-hof-vararg")
+        elif r < self.w["d1"] + self.w["d2"] + self.w["d3"]:
+            params = [(xp, "pk", False), (cbp, "kw", False)]
+            sig = f"{xp}, **{cbp}"
+            body = [f"    t = {cbp}[\"k\"]({xp})"]
+            style = "kwarg"; self.note("D3-hof-kwarg")
+        elif r < 0.45:
+            params = [(xp, "pk", False)] + [(n, "pk", True) for n, _ in extra] + [(cbp, "ko", False)]
+            sig = ", ".join([xp] + [f"{n}={d}" for n, d in extra] + ["*", cbp])
+            body = [f"    t = {cbp}({xp})"]
+            style = "kwonly"; self.note("hof-kwonly")
         else:
-            self.main += [f"def {nm}(cb, x):", "    t = cb(x)", "    return t"]
-            self.note("hof")
-        self.hofs.append(nm)
+            base = [(cbp, "pk", False), (xp, "pk", False)]
+            if self.chance(0.5):
+                base.reverse()
+            params = base + [(n, "pk", True) for n, _ in extra]
+            sig = ", ".join([n for n, _, _ in base] + [f"{n}={d}" for n, d in extra])
+            body = [f"    t = {cbp}({xp})"]
+            style = "plain"; self.note("hof")
+        self.main += [f"def {nm}({sig}):"] + body + ["    return t"]
+        h = dict(name=nm, params=params, cbp=cbp, xp=xp, style=style)
+        if style == "kwarg":
+            h["key"] = "k"
+        self.hofs.append(h)
 
     def gen_maker(self):
-        nm = self.fresh("mk")
+        nm = self.fresh_fn("mk")
         k = self.pick(["global", "global-pre", "nested", "param", "branch"])
         self.note("maker-" + k)
+        own = [e["expr"] for e in self.plain] or ["abs"]
         if k == "global":          # the whole body is `return <global function>`
-            self.main += [f"def {nm}():", f"    return {self.pick(self.plain)}"]
+            self.main += [f"def {nm}():", f"    return {self.pick(own)}"]
             self.makers.append((nm, False))
         elif k == "global-pre":
-            self.main += [f"def {nm}():", "    z = 1", f"    return {self.pick(self.plain)}"]
+            self.main += [f"def {nm}():", "    z = 1", f"    return {self.pick(own)}"]
             self.makers.append((nm, False))
         elif k == "nested":
             inn = self.fresh("inn")
-            self.main += [f"def {nm}():", f"    def {inn}(v):", f"        return {self.callee()}(v)", f"    return {inn}"]
+            self.main += [f"def {nm}():", f"    def {inn}(v):", f"        return {self.fcall('v')}", f"    return {inn}"]
             self.makers.append((nm, False))
         elif k == "param":
             self.main += [f"def {nm}(fn):", "    return fn"]
             self.makers.append((nm, True))
         else:
             d = self.new_dec()
-            self.main += [f"def {nm}():", f"    if D[{d}] == \"1\":", f"        return {self.pick(self.plain)}",
-                          f"    return {self.pick(self.plain)}"]
+            self.main += [f"def {nm}():", f"    if D[{d}] == \"1\":", f"        return {self.pick(own)}",
+                          f"    return {self.pick(own)}"]
             self.makers.append((nm, False))
 
     def gen_rec(self):
         k = self.pick(["self", "mutual", "self-calls-out", "mutual3"])
         self.note("rec-" + k)
         if k in ("self", "self-calls-out"):
-            nm = self.fresh("rec")
-            extra = [f"    t = {self.callee()}(n)"] if k == "self-calls-out" else ["    t = n"]
+            nm = self.fresh_fn("rec")
+            extra = [f"    t = {self.fcall('n')}"] if k == "self-calls-out" else ["    t = n"]
             self.main += [f"def {nm}(n):"] + extra + ["    if n > 0:", "        if n < 5:", f"            return {nm}(n - 1)", "    return t"]
-            self.recs.append(nm)
+            self.recs.append(dict(expr=nm, p="n", extra=[], va=None, kw=None))
         else:
             cnt = 2 if k == "mutual" else 3
-            ns = [self.fresh("mr") for _ in range(cnt)]
+            ns = [self.fresh_fn("mr") for _ in range(cnt)]
             for i, nm in enumerate(ns):
                 nxt = ns[(i + 1) % cnt]
                 self.main += [f"def {nm}(n):", "    if n > 0:", "        if n < 6:", f"            return {nxt}(n - 1)", "    return n"]
-            self.recs += ns
+                self.pad() if self.chance(0.3) else None
+            self.recs += [dict(expr=nm, p="n", extra=[], va=None, kw=None) for nm in ns]
 
     def gen_class(self):
         r = self.r
         nm = self.fresh("C")
         base = None
         cands = [c for c in self.classes if not c.get("box")]
-        if cands and self.chance(0.5):
+        if cands and self.chance(0.55):
             base = self.pick(cands)
         kind = self.pick(["plain", "plain", "box"]) if not base else "plain"
         if kind == "box":
             run = self.fresh("run")
-            self.main += [f"class {nm}:", "    def __init__(self, cb):", "        self.cb = cb",
+            extra = [(self.fresh("y"), 1)] if self.chance(0.4) else []
+            self.main += [f"class {nm}:", "    def __init__(self, cb" + "".join(f", {n}={d}" for n, d in extra) + "):", "        self.cb = cb",
                           f"    def {run}(self, x):", "        return self.cb(x)"]
-            self.classes.append(dict(name=nm, methods=[], box=True, run=run, ctor="cb"))
+            self.classes.append(dict(name=nm, methods=[], box=True, run=dict(name=run, extra=[]), ctor="cb", cparam="cb", cextra=extra))
             self.note("class-box")
             return
         lines = [f"class {nm}({base['name']}):" if base else f"class {nm}:"]
         ctor = base.get("ctor") if base else None
+        cparam = base.get("cparam", "x") if base else "x"
+        cextra = base.get("cextra", []) if base else []
         own_init = self.chance(0.6)
         if own_init:
+            cparam = self.pick(self.INT_NAMES)
+            cextra = [(self.fresh("y"), 1)] if self.chance(0.3) else []
+            head = f"    def __init__(self, {cparam}" + "".join(f", {n}={d}" for n, d in cextra) + "):"
             if base and base.get("ctor") is not None and base.get("module") != "u1":
+                barg = cparam if base.get("ctor") == "int" else ""
                 if self.chance(self.w["k4"] * 3):
-                    lines += ["    def __init__(self, x):", "        super().__init__(x)" if base.get("ctor") == "int" else "        super().__init__()", "        self.w = x"]
+                    lines += [head, f"        super().__init__({barg})", f"        self.w = {cparam}"]
                     self.note("K4-super-init")
                 else:
-                    lines += ["    def __init__(self, x):", f"        {base['name']}.__init__(self, x)" if base.get("ctor") == "int" else f"        {base['name']}.__init__(self)", "        self.w = x"]
+                    lines += [head, f"        {base['name']}.__init__(self, {barg})" if barg else f"        {base['name']}.__init__(self)", f"        self.w = {cparam}"]
                     self.note("explicit-base-init")
             else:
-                lines += ["    def __init__(self, x):", f"        self.v = {self.callee()}(x)" if self.chance(0.5) else "        self.v = x"]
+                lines += [head, f"        self.v = {self.fcall(cparam)}" if self.chance(0.5) else f"        self.v = {cparam}"]
             ctor = "int"
         methods = []
+        binh = (base["methods"] + base.get("inherited", [])) if base else []
         for j in range(r.randint(1, 2)):
             m = self.fresh("m")
-            ctx = dict(others=list(methods) + (base["methods"] + base.get("inherited", []) if base else []))
+            extra = [(self.fresh("y"), 1)] if self.chance(0.3) else []
+            ctx = dict(others=[x for x in list(methods) + binh if not x.get("cbp")])
             body = self.gen_action(8, "x", in_method=ctx)
-            lines += [f"    def {m}(self, x):"] + body + ["        return t"]
-            methods.append(m)
+            lines += [f"    def {m}(self, x" + "".join(f", {n}={d}" for n, d in extra) + "):"] + body + ["        return t"]
+            methods.append(dict(name=m, extra=extra))
+        # visitor method with a callback parameter: new, or overriding the base's (1-2 levels)
+        bvis = [x for x in binh if x.get("cbp")]
+        if bvis and self.chance(0.7):
+            bm = self.pick(bvis)
+            vm = dict(bm)          # same name and parameters: an override
+            self.note("override-visit-2" if bm.get("level", 0) >= 1 else "override-visit")
+            vm["level"] = bm.get("level", 0) + 1
+        elif self.chance(0.5):
+            vm = dict(name=self.fresh("visit"), cbp=self.pick(self.CB_NAMES), xp=self.pick(self.INT_NAMES), cb_first=self.chance(0.6),
+                      extra=[(self.fresh("y"), 1)] if self.chance(0.3) else [], level=0)
+            self.note("visit-method")
+        else:
+            vm = None
+        if vm:
+            ps = [vm["cbp"], vm["xp"]] if vm.get("cb_first", True) else [vm["xp"], vm["cbp"]]
+            body = [f"        t = {vm['cbp']}({vm['xp']})"]
+            if self.chance(0.5):
+                body.append(f"        t = {self.fcall('t')}")
+            lines += [f"    def {vm['name']}(self, " + ", ".join(ps) + "".join(f", {n}={d}" for n, d in vm.get("extra", [])) + "):"] + body + ["        return t"]
+            methods.append(vm)
+            binh = [x for x in binh if x["name"] != vm["name"]]
         self.main += lines
-        inh = (base["methods"] + base.get("inherited", [])) if base else []
-        self.classes.append(dict(name=nm, methods=methods, inherited=inh, ctor=ctor))
+        self.classes.append(dict(name=nm, methods=methods, inherited=binh, ctor=ctor, cparam=cparam, cextra=cextra))
         self.note("class-derived-2" if base and base.get("inherited") else ("class-derived" if base else "class"))
 
     def generate(self):
@@ -323,17 +687,19 @@ class ProgGen:
         plan = []
         n_items = int(r.randint(4, 8) * self.size)
         for _ in range(n_items):
-            plan.append(self.pick(["plain", "plain", "plain", "hof", "maker", "rec", "class", "class", "leaf"]))
+            plan.append(self.pick(["plain", "plain", "plain", "hof", "hof", "maker", "rec", "class", "class", "class", "leaf"]))
         for it in plan:
             getattr(self, "gen_" + it)()
+            if self.chance(0.5):
+                self.pad()
         # top-level code: several actions, repeated uses (several contexts of the same callee)
         top = []
         for _ in range(int(r.randint(3, 7) * self.size)):
             top += self.gen_action(0, str(r.randint(1, 3)))
         if self.chance(0.5) and self.plain:
-            fn = self.pick(self.plain)
+            e = self.pick(self.plain)
             for _ in range(r.randint(2, 4)):
-                top.append(f"t = {fn}({r.randint(1, 3)})")
+                top.append(f"t = {self.call_plain(e, str(r.randint(1, 3)))}")
             self.note("repeated-context")
         ep = []
         if self.chance(self.w["ep"]):
@@ -347,7 +713,7 @@ class ProgGen:
         if self.chance(self.w["second_entry"]) and self.helper:
             # a second file with top-level code: its %unit_init is a second entry point
             nm = [l.split("(")[0][4:] for l in self.helper if l.startswith("def ")]
-            files["u2.py"] = "\n".join([f"from u1 import {nm[0]}", f"def w2(x):", f"    return {nm[0]}(x)", "s = w2(1)", "s = w2(2)"]) + "\n"
+            files["u2.py"] = "\n".join([f"from u1 import {nm[0]}", "def w2(x):", f"    return {nm[0]}(x)", "s = w2(1)", "s = w2(2)"]) + "\n"
             self.note("second-entry-file")
         return dict(files=files, ndec=self.ndec, kinds=sorted(set(self.kinds)), main="m.py",
                     runs=["m.py"] + (["u2.py"] if "u2.py" in files else []), ep=bool(ep))
@@ -372,7 +738,7 @@ def key(co):
     n = q[-1]
     if n == "<module>": return "<module>"
     if n == "<lambda>": return "<lambda>@%d" % co.co_firstlineno
-    if n == "__init__": return q[-2] + ".__init__"
+    if len(q) >= 2 and q[-2] != "<locals>": return q[-2] + "." + n      # method: Class.name
     return n
 def inproj(co):
     fn = co.co_filename
@@ -651,9 +1017,20 @@ def run_lian(projdir, ws, settings):
             row = st.start_row
             line = int(row) + 1 if row == row and row is not None else 0
             cls = None
-            if name == "__init__":
-                cid = loader.convert_method_id_to_class_id(m)
-                cls = loader.convert_class_id_to_class_name(cid)
+            try:
+                outer = loader.convert_stmt_id_to_method_id(m)
+                nested = outer is not None and outer == outer and int(outer) > 0 and int(outer) != m and \
+                    loader.convert_method_id_to_method_name(int(outer)) != "%unit_init"
+            except Exception:
+                nested = False
+            try:
+                cid = None if nested else loader.convert_method_id_to_class_id(m)
+                if cid is not None and cid == cid and int(cid) > 0:
+                    cls = loader.convert_class_id_to_class_name(cid)
+                    if not isinstance(cls, str) or not cls:
+                        cls = None
+            except Exception:
+                cls = None
             methods[m] = [up, name, line, cls]
         except Exception:
             pass
@@ -753,8 +1130,8 @@ def method_keys(log, projdir_name):
             k = "<module>"
         elif name.startswith("%mm"):
             k = "<lambda>@%d" % line
-        elif name == "__init__":
-            k = "%s.__init__" % cls
+        elif cls:
+            k = "%s.%s" % (cls, name)
         else:
             k = name
         res[m] = (rel, k)
@@ -798,7 +1175,7 @@ def compare_model(log, reply):
 # (B) oracle: dynamic triples vs static edges / frames, explanation of misses
 # ------------------------------------------------------------------------------------------------
 
-def classify_call_syntax(files, rel, line, callee_key, callee_file=None, chain_files=None):
+def classify_call_syntax(files, rel, line, callee_key, callee_file=None, chain_files=None, prev=None, above=None):
     """Shape matchers for misses of call RESOLUTION (the part of lian the model does not cover).
     Looks only at the source text of the failing program."""
     try:
@@ -838,6 +1215,39 @@ def classify_call_syntax(files, rel, line, callee_key, callee_file=None, chain_f
                     attr_ref = True
         if attr_ref and not from_imported:
             return "C07/import-module-attribute-call"
+    # module variable holding a function (value form, covers the direct call too): the callee F is a
+    # module-level function of project file M, M binds a module-level variable `V = F`, a file of the callers
+    # on this dynamic chain from-imports V from M and none of them from-imports F itself: the value reaches the
+    # call through the imported variable, whose state lian does not know
+    if callee_file is not None and "." not in callee_key and not callee_key.startswith("<") and callee_file in files:
+        mod = callee_file[:-3].replace(os.sep, ".")
+        try:
+            mt = ast.parse(files[callee_file])
+        except Exception:
+            mt = None
+        holders = set()
+        if mt is not None:
+            for n in mt.body:
+                if isinstance(n, ast.Assign) and isinstance(n.value, ast.Name) and n.value.id == callee_key:
+                    holders |= {t.id for t in n.targets if isinstance(t, ast.Name)}
+        if holders:
+            imp_holder = imp_direct = False
+            for orel in sorted(set(chain_files or [rel])):
+                if orel == callee_file or orel not in files:
+                    continue
+                try:
+                    ot = ast.parse(files[orel])
+                except Exception:
+                    continue
+                for n in ast.walk(ot):
+                    if isinstance(n, ast.ImportFrom) and n.module == mod:
+                        for a in n.names:
+                            if a.name in holders:
+                                imp_holder = True
+                            if a.name == callee_key or a.name == "*":
+                                imp_direct = True
+            if imp_holder and not imp_direct:
+                return "C07/module-variable-callable"
     calls = [n for n in ast.walk(tree) if isinstance(n, ast.Call) and n.lineno == line]
     # enclosing function of the line
     encl = None
@@ -847,6 +1257,55 @@ def classify_call_syntax(files, rel, line, callee_key, callee_file=None, chain_f
                 encl = n
     for c in calls:
         fn = c.func
+        # callables that arrive through a PARAMETER of the enclosing function
+        if encl is not None:
+            a = encl.args
+            pos_params = [x.arg for x in a.posonlyargs + a.args]
+            defaults = dict(zip(pos_params[len(pos_params) - len(a.defaults):], a.defaults)) if a.defaults else {}
+            kwonly = {x.arg: d for x, d in zip(a.kwonlyargs, a.kw_defaults)}
+            pname, packed = None, False
+            if isinstance(fn, ast.Name):
+                pname = fn.id
+            elif isinstance(fn, ast.Subscript) and isinstance(fn.value, ast.Name):
+                pname, packed = fn.value.id, True
+            if pname and packed and ((a.vararg and a.vararg.arg == pname) or (a.kwarg and a.kwarg.arg == pname)):
+                # `def f(x, *fs): fs[0](x)` / `def f(x, **kw): kw["k"](x)`
+                return "C07/packed-parameter-callable"
+            if pname and not packed and (pname in pos_params or pname in kwonly) and prev is not None:
+                pcs = []
+                try:
+                    pt = ast.parse(files[prev[0]])
+                    for n in ast.walk(pt):
+                        if isinstance(n, ast.Call) and n.lineno == prev[1]:
+                            f2 = n.func
+                            nm2 = f2.id if isinstance(f2, ast.Name) else (f2.attr if isinstance(f2, ast.Attribute) else None)
+                            if nm2 == encl.name or encl.name == "__init__":
+                                pcs.append(n)
+                except Exception:
+                    pcs = []
+                starred_above = False
+                for (pf, pl) in (above or []):
+                    try:
+                        starred_above = starred_above or any(isinstance(n, ast.Call) and n.lineno == pl and any(isinstance(x, ast.Starred) for x in n.args)
+                                                             for n in ast.walk(ast.parse(files[pf])))
+                    except Exception:
+                        pass
+                if (pcs and any(isinstance(x, ast.Starred) for c2 in pcs for x in c2.args)) or starred_above:
+                    # `f(*[cb, 1])`: star-unpacked positional arguments are not mapped to the parameters
+                    return "C07/star-unpacked-positional-args"
+                d = defaults.get(pname) if pname in defaults else kwonly.get(pname)
+                if pcs and d is not None and isinstance(d, ast.Name):
+                    idx = pos_params.index(pname) - (1 if pos_params and pos_params[0] == "self" else 0) if pname in pos_params else 10 ** 6
+                    def fills(k):
+                        if k.arg is not None:
+                            return k.arg == pname
+                        if isinstance(k.value, ast.Dict) and all(isinstance(x, ast.Constant) for x in k.value.keys):
+                            return pname in [x.value for x in k.value.keys]
+                        return True
+                    unfilled = all(not any(fills(k) for k in c2.keywords) and len(c2.args) <= idx for c2 in pcs)
+                    if unfilled:
+                        # `def f(x, cb=g): cb(x)` called without cb: the default value is a module variable of the definer
+                        return "C07/default-parameter-callable"
         # K1: module.attr(...) where module is bound by `import module [as alias]`
         if isinstance(fn, ast.Attribute) and isinstance(fn.value, ast.Name) and fn.value.id in imported_modules \
                 and fn.attr == callee_key.split(".")[0]:
@@ -995,7 +1454,9 @@ def explain_chain(prog, chain, inv, frames, frames_by_path, reasons, lines, meth
             else:
                 link.update(finding=None, why="resolved here, no frame, and the first decision was not a cut-off (first decisions=%s)" % sorted(rs))
             return link
-        f = classify_call_syntax(prog["files"], cf, line, ek, ef, [x[0] for x in chain])
+        f = classify_call_syntax(prog["files"], cf, line, ek, ef, [x[0] for x in chain],
+                                 prev=(chain[i - 1][0], chain[i - 1][2]) if i > 0 else None,
+                                 above=[(x[0], x[2]) for x in chain[:i]])
         if f:
             link.update(finding=f, unresolved=True, why="callee not resolved at this call statement in the analysed context")
             return link
@@ -1372,6 +1833,8 @@ def delete_unit(text, unit):
 
 
 def shrink_program(prog, still_fails, budget_s=120):
+    """greedy structural shrinking: drop whole files, then statements / definitions (largest first); after a
+    successful deletion the scan continues at the same position instead of restarting"""
     t0 = time.time()
     prog = json.loads(json.dumps(prog))
     changed = True
@@ -1384,19 +1847,18 @@ def shrink_program(prog, still_fails, budget_s=120):
                 cand["runs"] = [r for r in cand.get("runs", ["m.py"]) if r in cand["files"]]
                 if still_fails(cand):
                     prog = cand; changed = True
-                    break
-            for u in shrink_units(prog["files"][rel]):
-                if time.time() - t0 > budget_s:
+                    continue
+            k = 0
+            while time.time() - t0 < budget_s:
+                units = shrink_units(prog["files"][rel])
+                if k >= len(units):
                     break
                 cand = json.loads(json.dumps(prog))
-                cand["files"][rel] = delete_unit(prog["files"][rel], u)
-                if cand["files"][rel] == prog["files"][rel]:
-                    continue
-                if still_fails(cand):
+                cand["files"][rel] = delete_unit(prog["files"][rel], units[k])
+                if cand["files"][rel] != prog["files"][rel] and still_fails(cand):
                     prog = cand; changed = True
-                    break
-            if changed:
-                break
+                else:
+                    k += 1
     return prog
 
 
@@ -1458,7 +1920,7 @@ def run(ctx):
 
 def _run(ctx, proofs_ok, scratch):
     tier = ctx.tier
-    n_gen = 160 if tier == "quick" else 2400
+    n_gen = 360 if tier == "quick" else 3000
     corpus = load_corpus()
     progs = [dict(files=c["files"], ndec=c.get("ndec", 0), main=c.get("main", "m.py"), runs=c.get("runs", ["m.py"]),
                   ep=c.get("ep", False), kinds=["corpus:" + c["_file"]], expect=c.get("expect"), witness=c.get("witness"),
@@ -1469,7 +1931,7 @@ def _run(ctx, proofs_ok, scratch):
         p = gen_program(s, size)
         p["seed"] = s
         progs.append(p)
-    nproc = min(14, os.cpu_count() or 4)
+    nproc = max(1, min(os.cpu_count() or 4, int(os.environ.get("LV_WORKERS", "14"))))
     mp = multiprocessing.get_context("fork")
     _W["root"] = scratch
     with mp.Pool(nproc) as pool:
@@ -1589,7 +2051,7 @@ def _run(ctx, proofs_ok, scratch):
             def still(c):
                 r = full_check(c, "shr")
                 return "skip" not in r and any(x["kind"] == target_kind for x in r["unexplained"])
-            small = shrink_program(prog, still, budget_s=60 if tier == "quick" else 400)
+            small = shrink_program(prog, still, budget_s=75 if tier == "quick" else 400)
             r = full_check(small, "shr")
             m2 = (r.get("unexplained") or [m])[0]
         except Exception as e:
